@@ -316,6 +316,11 @@ func main() {
 		return
 	}
 	genDQ(r, rng)
+	if r.Thorough() {
+		genDQExhaustive(r, 5) // 111110 bodies
+	} else {
+		genDQExhaustive(r, 3) // 1110 bodies
+	}
 	genRRS(r, rng)
 	genPDNS(r, rng)
 	genNBNS(r, rng)
